@@ -7,6 +7,8 @@ import (
 	"sort"
 	"strings"
 
+	"golang.org/x/text/unicode/norm"
+
 	"verifharness/ref"
 )
 
@@ -216,10 +218,14 @@ func c18Transforms() []c18Transform {
 			back := map[string]string{}
 			for i, n := range names {
 				var nn string
-				if r.Bool() {
+				switch r.Intn(3) {
+				case 0:
 					nn = fmt.Sprintf("zq%dx%d", i, r.Intn(90))
-				} else {
+				case 1:
 					nn = fmt.Sprintf("ঙঞ%d_%d", i, r.Intn(90))
+				default:
+					// code points that Unicode normalisation would rewrite (U+09DF, U+09DC, split vowel sign)
+					nn = fmt.Sprintf("ঙ\u09df%d\u09dc_%dক\u09c7\u09be", i, r.Intn(90))
 				}
 				mapping[n] = nn
 				back[nn] = n
@@ -384,10 +390,16 @@ func c18Observe(c *Ctx, src, stdin string, cli bool, back map[string]string) (*c
 		}
 		sort.Slice(keys, func(i, j int) bool { return len(keys[i]) > len(keys[j]) })
 		for _, k := range keys {
-			rec.stdout = strings.ReplaceAll(rec.stdout, k, back[k])
-			rec.diag = strings.ReplaceAll(rec.diag, k, back[k])
+			// printed text is NFC-normalised, so the new name may appear in its NFC form
+			for _, form := range []string{k, norm.NFC.String(k)} {
+				rec.stdout = strings.ReplaceAll(rec.stdout, form, norm.NFC.String(back[k]))
+				rec.diag = strings.ReplaceAll(rec.diag, form, norm.NFC.String(back[k]))
+			}
 		}
 	}
+	// compare under canonical equivalence (diagnostics are not normalised by the implementation)
+	rec.stdout = norm.NFC.String(rec.stdout)
+	rec.diag = norm.NFC.String(rec.diag)
 	return rec, true
 }
 
